@@ -56,12 +56,12 @@ PROPS['C05'] = Prop(
     assumptions=['every listener/predicate call is checked against the reference model at the moment it happens (incremental oracle)'])
 
 PROPS['C19'] = Prop(
-    quick=[Run('cl_history_wrap_k4', 'cl_history.cpp', {'KK': 4, 'WRAP': 3}, covers=9,
-               bounds='as C01 K=4, with the generation counter started at a symbolic c0 in [2^32-1-3, 2^32-1]: the solver places the wrap at any of the additions'),
-           Run('cl_nested_wrap_a3', 'cl_nested.cpp', {'N0': 2, 'AA': 3, 'DD': 2, 'WRAP': 4}, covers=8, optional_covers=(5,),
-               bounds='as C02 with 2 initial callbacks, A=3 nested actions, counter started at symbolic c0 within 4 of the wrap; invocations in progress at the wrap are relaxed as the property allows, every later invocation must be exact')],
-    thorough=[Run('cl_history_wrap_k5', 'cl_history.cpp', {'KK': 5, 'WRAP': 4}, covers=9, budget_s=1700, bounds='as C01 K=5, c0 within 4 of the wrap'),
-              Run('cl_nested_wrap_a4', 'cl_nested.cpp', {'N0': 3, 'AA': 4, 'DD': 2, 'WRAP': 5}, covers=8, budget_s=1700, bounds='as C02 with 3 initial callbacks, A=4, c0 within 5 of the wrap')],
+    quick=[Run('cl_history_wrap_k3', 'cl_history.cpp', {'KK': 3, 'WRAP': 3}, covers=9, optional_covers=(3, 4),
+               bounds='as C01 K=3, with the generation counter started at a symbolic c0 in [2^32-1-3, 2^32-1]: the solver places the wrap at any of the additions'),
+           Run('cl_nested_wrap_a2', 'cl_nested.cpp', {'N0': 2, 'AA': 2, 'DD': 2, 'WRAP': 3}, covers=8, optional_covers=(5,),
+               bounds='as C02 with 2 initial callbacks, A=2 nested actions, counter started at symbolic c0 within 3 of the wrap; invocations in progress at the wrap are relaxed as the property allows, every later invocation must be exact')],
+    thorough=[Run('cl_history_wrap_k4', 'cl_history.cpp', {'KK': 4, 'WRAP': 4}, covers=9, budget_s=1700, bounds='as C01 K=4, c0 within 4 of the wrap'),
+              Run('cl_nested_wrap_a3', 'cl_nested.cpp', {'N0': 3, 'AA': 3, 'DD': 2, 'WRAP': 4}, covers=8, budget_s=1700, bounds='as C02 with 3 initial callbacks, A=3, c0 within 4 of the wrap')],
     outside='wrap placed further than W additions from the start of the history; copies/moves/swaps across the wrap are exercised in C10 (counters far apart)',
     assumptions=['the counter is positioned by writing the private member currentCounter through the test-style private->public include (no repo hook)'])
 
